@@ -170,3 +170,34 @@ Theorem C13_judge_sound : forall c target us l,
              JudgeProofs.C13_statement c target us ts.
 Proof. exact JudgeProofs.judge_sound. Qed.
 Print Assumptions C13_judge_sound.
+
+(* non-vacuity of C13_judge_sound: the judge accepts a real result of create_send_all (corpus case w6: one pure-ADA
+   UTxO of 5 ADA whose multiasset is present but empty, mainnet parameters; transaction and signed transaction as
+   returned / signed by the harness) *)
+Definition ex_target : bytes := [1; 133; 176; 65; 123; 200; 127; 114; 81; 153; 106; 185; 32; 142; 4; 17; 34; 170; 82; 179; 4; 134; 220; 251; 62; 44; 150; 0; 115; 226; 102; 95; 71; 118; 66; 241; 236; 110; 189; 250; 122; 0; 5; 132; 234; 248; 87; 107; 81; 53; 85; 115; 228; 75; 159; 33; 229].
+Definition ex_utxo : BatchSpec.utxo := BatchSpec.mkUtxo [17; 17; 17; 17; 17; 17; 17; 17; 17; 17; 17; 17; 17; 17; 17; 17; 17; 17; 17; 17; 17; 17; 17; 17; 17; 17; 17; 17; 17; 17; 17; 17] 0 [1; 56; 193; 132; 159; 136; 84; 50; 65; 42; 95; 18; 142; 254; 217; 39; 91; 112; 11; 41; 225; 10; 146; 149; 130; 46; 153; 46; 35; 31; 232; 67; 186; 72; 194; 249; 72; 5; 138; 20; 193; 180; 33; 132; 1; 163; 49; 34; 36; 80; 144; 93; 60; 112; 16; 44; 36] 5000000 [].
+Definition ex_cfg : BatchSpec.config := BatchSpec.mkConfig 44 155381 4310 5000 16384.
+Definition ex_tx : bytes := [132; 163; 0; 217; 1; 2; 129; 130; 88; 32; 17; 17; 17; 17; 17; 17; 17; 17; 17; 17; 17; 17; 17; 17; 17; 17; 17; 17; 17; 17; 17; 17; 17; 17; 17; 17; 17; 17; 17; 17; 17; 17; 0; 1; 129; 130; 88; 57; 1; 133; 176; 65; 123; 200; 127; 114; 81; 153; 106; 185; 32; 142; 4; 17; 34; 170; 82; 179; 4; 134; 220; 251; 62; 44; 150; 0; 115; 226; 102; 95; 71; 118; 66; 241; 236; 110; 189; 250; 122; 0; 5; 132; 234; 248; 87; 107; 81; 53; 85; 115; 228; 75; 159; 33; 229; 26; 0; 73; 197; 159; 2; 26; 0; 2; 133; 161; 161; 0; 217; 1; 2; 129; 130; 88; 32; 207; 118; 57; 154; 33; 13; 232; 114; 14; 159; 168; 148; 228; 94; 65; 226; 154; 181; 37; 227; 11; 196; 2; 128; 0; 0; 0; 0; 0; 0; 0; 0; 88; 64; 36; 248; 153; 211; 155; 23; 253; 93; 102; 193; 146; 196; 181; 13; 52; 62; 66; 247; 35; 91; 48; 80; 76; 138; 231; 97; 159; 147; 200; 40; 220; 109; 206; 69; 104; 221; 105; 23; 124; 85; 24; 40; 73; 45; 119; 122; 103; 39; 253; 102; 194; 251; 204; 189; 168; 194; 174; 237; 146; 3; 44; 153; 121; 10; 245; 246].
+Definition ex_signed : bytes := [132; 163; 0; 217; 1; 2; 129; 130; 88; 32; 17; 17; 17; 17; 17; 17; 17; 17; 17; 17; 17; 17; 17; 17; 17; 17; 17; 17; 17; 17; 17; 17; 17; 17; 17; 17; 17; 17; 17; 17; 17; 17; 0; 1; 129; 130; 88; 57; 1; 133; 176; 65; 123; 200; 127; 114; 81; 153; 106; 185; 32; 142; 4; 17; 34; 170; 82; 179; 4; 134; 220; 251; 62; 44; 150; 0; 115; 226; 102; 95; 71; 118; 66; 241; 236; 110; 189; 250; 122; 0; 5; 132; 234; 248; 87; 107; 81; 53; 85; 115; 228; 75; 159; 33; 229; 26; 0; 73; 197; 159; 2; 26; 0; 2; 133; 161; 161; 0; 217; 1; 2; 129; 130; 88; 32; 238; 138; 101; 32; 85; 220; 86; 247; 155; 155; 15; 174; 89; 58; 2; 55; 224; 158; 67; 48; 42; 232; 58; 232; 184; 101; 37; 3; 118; 60; 179; 134; 88; 64; 98; 114; 27; 129; 186; 236; 225; 45; 45; 138; 238; 43; 172; 210; 92; 169; 68; 42; 82; 66; 32; 93; 241; 81; 135; 142; 175; 28; 159; 239; 55; 6; 224; 237; 135; 95; 234; 160; 81; 47; 104; 241; 213; 72; 158; 184; 21; 199; 50; 46; 138; 109; 218; 0; 67; 37; 112; 216; 67; 96; 100; 100; 59; 5; 245; 246].
+Example C13_judge_example :
+  BatchSpec.utxos_distinct [ex_utxo] = true /\ BatchSpec.judge ex_cfg ex_target [ex_utxo] [(ex_tx, ex_signed)] = [].
+Proof. split; vm_compute; reflexivity. Qed.
+
+(* non-vacuity of the size theorems' premises: a value with one asset (28-byte policy id, 3-byte name, quantity 5) *)
+Example C13_value_example :
+  let gs := [(repeat 171 28, [([97; 98; 99], 5)])] in
+  Forall (fun p : bytes * list (bytes * N) => lenN (fst p) = 28) gs /\
+  lenN (enc Value (value_val 1133530 gs)) = 43 /\
+  calc_value_size 1133530 (groups_shape gs) + get_value_struct_size (is_nil gs) = 43.
+Proof. cbn zeta. split; [repeat constructor|]. split; vm_compute; reflexivity. Qed.
+
+(* ... and of the estimators': the output of the example above (57-byte address) and the fee of a 299-byte transaction *)
+Example C13_estimators_example :
+  estimate_output_cost 1000000 103 4310 = Ok (1133530, 103) /\
+  estimate_fee 289 (Some 1133530) (Some 1302000) 44 155381 = Ok (168537, 299).
+Proof. split; vm_compute; reflexivity. Qed.
+
+(* "one signature per distinct owning key": fewer vkey witnesses (shared payment keys) only make the transaction smaller *)
+Theorem C13_fewer_signatures : forall v v' boots, 1 <= v -> v <= v' -> wit_size v boots <= wit_size v' boots.
+Proof. exact fewer_signatures_smaller. Qed.
+Print Assumptions C13_fewer_signatures.
